@@ -491,3 +491,96 @@ func sameObject(a, b ssa.Value) bool {
 	}
 	return false
 }
+
+// RunLoopAlias: a map (or pointer to a fresh object) created before a loop
+// and stored into a different element of a collection on every iteration
+// makes all elements the same object: what is written for one element shows
+// up in all of them.
+func RunLoopAlias(w *World, r *Report, fns []*ssa.Function) {
+	r.Rule("loopalias: no map created outside a loop is stored into a slice element / appended to a slice / stored under a varying key inside the loop while the loop also updates it: the elements would all alias one map (per-element objects are created inside the loop)")
+	for _, fn := range fns {
+		if fn.Blocks == nil {
+			continue
+		}
+		loops := naturalLoops(fn)
+		for _, b := range fn.Blocks {
+			for _, in := range b.Instrs {
+				mk, ok := in.(*ssa.MakeMap)
+				if !ok || mk.Referrers() == nil {
+					continue
+				}
+				for _, l := range loops {
+					if l.body[mk.Block()] {
+						continue
+					}
+					stored, updated := false, false
+					var at token.Pos
+					var visit func(v ssa.Value, depth int)
+					seen := map[ssa.Value]bool{}
+					visit = func(v ssa.Value, depth int) {
+						if seen[v] || depth > 4 || v.Referrers() == nil {
+							return
+						}
+						seen[v] = true
+						for _, ref := range *v.Referrers() {
+							if ref.Block() == nil || !l.body[ref.Block()] {
+								continue
+							}
+							switch x := ref.(type) {
+							case *ssa.ChangeType:
+								visit(x, depth+1)
+							case *ssa.MapUpdate:
+								if x.Map == v {
+									updated = true
+								}
+								if x.Value == v {
+									stored, at = true, x.Pos()
+								}
+							case *ssa.Store:
+								if x.Val == v {
+									if _, ok := x.Addr.(*ssa.IndexAddr); ok {
+										stored, at = true, x.Pos()
+									}
+								}
+							case *ssa.Call:
+								// a method of the map type that updates it (setFontMatrix): count as update
+								if c := x.Call.StaticCallee(); c != nil && len(x.Call.Args) > 0 && x.Call.Args[0] == v {
+									if writesMapParam(c) {
+										updated = true
+									}
+								}
+								if bi, ok := x.Call.Value.(*ssa.Builtin); ok && bi.Name() == "append" {
+									stored, at = true, x.Pos()
+								}
+							}
+						}
+					}
+					visit(mk, 0)
+					if !stored {
+						continue
+					}
+					key := r.MkKey("loopalias", fnName(fn), "map "+mk.Name()+" stored per iteration")
+					if updated {
+						r.Fail("loopalias", key, w.Pos(at), "a map created once before the loop is stored into a different element on every iteration and also updated in the loop: all elements are the same map, so entries written for one element (and never deleted) appear in all of them", nil)
+					} else {
+						r.OK("loopalias", key, w.Pos(at), "stored but not updated in the loop")
+					}
+				}
+			}
+		}
+	}
+}
+
+func writesMapParam(fn *ssa.Function) bool {
+	if fn.Blocks == nil || len(fn.Params) == 0 {
+		return false
+	}
+	for _, b := range fn.Blocks {
+		for _, in := range b.Instrs {
+			if mu, ok := in.(*ssa.MapUpdate); ok && mu.Map == ssa.Value(fn.Params[0]) {
+				return true
+			}
+		}
+	}
+	return false
+}
